@@ -426,6 +426,218 @@ func genMultiFail(r *prng.R, i int) Scenario {
 	return sc
 }
 
+// ---------------------------------------------------------------- failreload / stoperr families
+
+func allIDs(n int) []int {
+	out := make([]int, n)
+	for i := range out {
+		out[i] = i
+	}
+	return out
+}
+
+// a child FAILS (returns a non-cancellation error on its own) while a Reload() is in progress, for
+// every flavour of "in progress"; then the reload is let go.  The state is observed while the reload
+// is still held (after Run() handled the failure) and after everything has settled.
+//
+//	0  in-place reload blocked inside a sibling's (or the failing child's own) ReloadWithConfig / Reload
+//	1  in-place reload parked on one of its log records
+//	2  membership-changing reload parked before / inside its stopAllRunnables (old children still running)
+//	3  membership-changing reload parked after its boot (the NEW children run; one of them fails)
+//	4  the failing child's goroutine is parked between its Run's return and its report; a reload of any
+//	   kind is started (and parked / held, or - restart flavour - left blocked in the drain of
+//	   stopAllRunnables, which waits for that goroutine); then the report is let through
+//	5  a second Reload() waits for reloadMu behind a parked one when the child fails
+//	6  Run()'s own failure teardown is parked inside stopAllRunnables (it holds reloadMu); a Reload() waits
+//	7  an OLD child returns a real error when the reload stops it; the reloader is parked after
+//	   stopAllRunnables, before / inside boot (nothing runs at that moment)
+func genFailReload(r *prng.R, i int) Scenario {
+	v := i % 8
+	n := 2 + r.Intn(2)
+	sc := Scenario{ID: fmt.Sprintf("failreload-%d-v%d", i, v), Family: "failreload", Pool: randPool(r, n, "F", 5)}
+	cur := allIDs(n)
+	if v == 2 || v == 3 || v == 7 || ((v == 4 || v == 5) && r.Bool()) {
+		cur = allIDs(n - 1) // leave a child to be added by the membership-changing reload
+	}
+	sc.Init = seqEntries(r, cur)
+	ops := []Op{{Op: "run"}, {Op: "wait"}}
+	if r.Chance(1, 4) { // an earlier, undisturbed reload
+		ops = append(ops, Op{Op: "reload", Cb: "some", Cfg: seqEntries(r, cur)}, Op{Op: "wait"})
+	}
+	fail := prng.Pick(r, failShapes)
+	j := cur[r.Intn(len(cur))]
+	same := func() []Entry { // same identity set, new values, possibly permuted
+		p := perm(r, len(cur))
+		nc := make([]int, len(cur))
+		for x, y := range p {
+			nc[x] = cur[y]
+		}
+		return seqEntries(r, nc)
+	}
+	changed := func() []Entry { // a different identity set that keeps at least one child
+		switch r.Intn(3) {
+		case 0:
+			if len(cur) < n {
+				return seqEntries(r, allIDs(n)) // grow
+			}
+			return seqEntries(r, cur[:len(cur)-1]) // shrink
+		case 1:
+			if len(cur) < n {
+				return seqEntries(r, append(append([]int(nil), cur[1:]...), n-1)) // replace one
+			}
+			return seqEntries(r, cur[1:])
+		default:
+			if len(cur) < n {
+				return seqEntries(r, []int{n - 1}) // replace all
+			}
+			return seqEntries(r, cur[:1])
+		}
+	}
+	holdable := func(c int) {
+		if sc.Pool[c].RK == "-" {
+			sc.Pool[c].RK = prng.Pick(r, []string{"W", "P"})
+		}
+	}
+	switch v {
+	case 0:
+		h := cur[r.Intn(len(cur))]
+		holdable(h)
+		ops = append(ops, Op{Op: "hold", C: h}, Op{Op: "reload", Cb: "some", Cfg: same()}, Op{Op: "waithold", C: h},
+			Op{Op: "exit", C: j, Err: fail}, Op{Op: "wait"}, Op{Op: "unhold", C: h}, Op{Op: "wait"})
+	case 1:
+		ops = append(ops, Op{Op: "park", Sub: prng.Pick(r, parksInPlace)}, Op{Op: "reload", Cb: "some", Cfg: same()},
+			Op{Op: "waitpark"}, Op{Op: "exit", C: j, Err: fail}, Op{Op: "wait"}, Op{Op: "release"}, Op{Op: "wait"})
+	case 2:
+		sub := prng.Pick(r, []string{"Membership change detected", "Reloading runnables due to membership change", "Stopping child runnable"})
+		ops = append(ops, Op{Op: "park", Sub: sub}, Op{Op: "reload", Cb: "some", Cfg: changed()},
+			Op{Op: "waitpark"}, Op{Op: "exit", C: j, Err: fail}, Op{Op: "wait"}, Op{Op: "release"}, Op{Op: "wait"})
+	case 3:
+		nc := changed()
+		sub := prng.Pick(r, []string{"All child runnables launched", "Reloaded runnables due to membership change", "Completed."})
+		jn := nc[r.Intn(len(nc))].C
+		ops = append(ops, Op{Op: "park", Sub: sub}, Op{Op: "reload", Cb: "some", Cfg: nc},
+			Op{Op: "waitpark"}, Op{Op: "exit", C: jn, Err: fail}, Op{Op: "wait"}, Op{Op: "release"}, Op{Op: "wait"})
+	case 4:
+		ops = append(ops, Op{Op: "park", Sub: "Returned unexpected error", P: 1}, Op{Op: "exit", C: j, Err: fail}, Op{Op: "waitpark", P: 1})
+		switch r.Intn(4) {
+		case 0: // in-place, parked
+			ops = append(ops, Op{Op: "park", Sub: prng.Pick(r, parksInPlace)}, Op{Op: "reload", Cb: "some", Cfg: same()}, Op{Op: "waitpark"},
+				Op{Op: "release", P: 1}, Op{Op: "wait"}, Op{Op: "release"}, Op{Op: "wait"})
+		case 1: // in-place, held inside a child's reload
+			h := cur[r.Intn(len(cur))]
+			holdable(h)
+			ops = append(ops, Op{Op: "hold", C: h}, Op{Op: "reload", Cb: "some", Cfg: same()}, Op{Op: "waithold", C: h},
+				Op{Op: "release", P: 1}, Op{Op: "wait"}, Op{Op: "unhold", C: h}, Op{Op: "wait"})
+		case 2: // restart, parked before the Stop() calls are issued
+			ops = append(ops, Op{Op: "park", Sub: prng.Pick(r, []string{"Membership change detected", "Stopping child runnable"})},
+				Op{Op: "reload", Cb: "some", Cfg: changed()}, Op{Op: "waitpark"},
+				Op{Op: "release", P: 1}, Op{Op: "wait"}, Op{Op: "release"}, Op{Op: "wait"})
+		default: // restart, blocked in the drain of stopAllRunnables behind the parked goroutine
+			ops = append(ops, Op{Op: "reload", Cb: "some", Cfg: changed()}, Op{Op: "wait"}, Op{Op: "release", P: 1}, Op{Op: "wait"})
+		}
+	case 5:
+		var first []Entry
+		sub := ""
+		if r.Bool() {
+			first, sub = same(), prng.Pick(r, parksInPlace)
+		} else {
+			first, sub = changed(), prng.Pick(r, []string{"Membership change detected", "Stopping child runnable"})
+		}
+		ops = append(ops, Op{Op: "park", Sub: sub}, Op{Op: "reload", Cb: "some", Cfg: first}, Op{Op: "waitpark"},
+			Op{Op: "reload", Cb: "some", Cfg: seqEntries(r, cur)}, Op{Op: "waitpark"},
+			Op{Op: "exit", C: j, Err: fail}, Op{Op: "wait"}, Op{Op: "release"}, Op{Op: "wait"})
+	case 6:
+		ops = append(ops, Op{Op: "park", Sub: "Stopping child runnable"}, Op{Op: "exit", C: j, Err: fail}, Op{Op: "waitpark"},
+			Op{Op: "reload", Cb: "some", Cfg: prng.Pick(r, [][]Entry{same(), changed()})}, Op{Op: "wait"}, Op{Op: "release"}, Op{Op: "wait"})
+	default:
+		sc.Pool[cur[0]].Exit = prng.Pick(r, []string{"E", "X"})
+		sub := prng.Pick(r, []string{"Updating config after stopping", "Config updated", "Starting child runnables", "All child runnables launched"})
+		ops = append(ops, Op{Op: "park", Sub: sub}, Op{Op: "reload", Cb: "some", Cfg: changed()},
+			Op{Op: "waitpark"}, Op{Op: "wait"}, Op{Op: "release"}, Op{Op: "wait"})
+	}
+	if r.Bool() {
+		ops = append(ops, Op{Op: prng.Pick(r, []string{"stop", "stop", "cancel"})}, Op{Op: "wait"})
+	}
+	ops = append(ops, Op{Op: "end"})
+	sc.Ops = ops
+	return sc
+}
+
+// children that return a REAL (non-cancellation) error from Run() in reaction to Stop() / to the
+// cancellation of their context (exit styles "E" and "X"), 1..3 children, alone and racing a
+// Stop() / cancel / Reload().  Observed: Run()'s result, the state at every quiescent point and after
+// Run() returned, which children were stopped.
+//
+//	0  Stop()               1  cancel
+//	2  Run() parked right after its select chose Stop(); a further child then fails on its own
+//	3  Stop() and a Reload() issued together (no pause)
+//	4  a Reload() parked at one of its steps, then Stop() / cancel, then the reload is let go
+//	5  Stop() / cancel and, without a pause, a child that fails on its own
+func genStopErr(r *prng.R, i int) Scenario {
+	v := i % 6
+	n := 1 + r.Intn(3)
+	sc := Scenario{ID: fmt.Sprintf("stoperr-%d-v%d", i, v), Family: "stoperr", Pool: randPool(r, n, "S", 5)}
+	for c := range sc.Pool {
+		sc.Pool[c].Exit = prng.Pick(r, []string{"E", "X", "E", "X", "F", "S"})
+	}
+	sc.Pool[r.Intn(n)].Exit = prng.Pick(r, []string{"E", "X"})
+	cur := allIDs(n)
+	if n > 1 && r.Chance(1, 3) {
+		cur = allIDs(n - 1)
+		sc.Pool[0].Exit = prng.Pick(r, []string{"E", "X"})
+	}
+	sc.Init = seqEntries(r, cur)
+	free := []int{}
+	for _, c := range cur {
+		if sc.Pool[c].Exit != "S" {
+			free = append(free, c)
+		}
+	}
+	reloadCfg := func() []Entry {
+		if r.Bool() {
+			return seqEntries(r, cur)
+		}
+		nc, _ := nextCfg(r, n, cur)
+		return seqEntries(r, nc)
+	}
+	how := prng.Pick(r, []string{"stop", "stop", "cancel"})
+	ops := []Op{}
+	switch v {
+	case 0:
+		ops = append(ops, Op{Op: "run"}, Op{Op: "wait"}, Op{Op: "stop"}, Op{Op: "wait"})
+	case 1:
+		ops = append(ops, Op{Op: "run"}, Op{Op: "wait"}, Op{Op: "cancel"}, Op{Op: "wait"})
+	case 2:
+		ops = append(ops, Op{Op: "run"}, Op{Op: "wait"}, Op{Op: "park", Sub: "Stop() called"}, Op{Op: "stop"}, Op{Op: "waitpark"},
+			Op{Op: "exit", C: free[r.Intn(len(free))], Err: prng.Pick(r, failShapes)}, Op{Op: "waitpark"}, Op{Op: "release"}, Op{Op: "wait"})
+	case 3:
+		ops = append(ops, Op{Op: "run"}, Op{Op: "wait"})
+		if r.Bool() {
+			ops = append(ops, Op{Op: "stop"}, Op{Op: "reload", Cb: "some", Cfg: reloadCfg()})
+		} else {
+			ops = append(ops, Op{Op: "reload", Cb: "some", Cfg: reloadCfg()}, Op{Op: "stop"})
+		}
+		ops = append(ops, Op{Op: "wait"})
+	case 4:
+		nc := reloadCfg()
+		subs := parksRestart
+		if sameSet(cur, ids(nc)) && len(cur) == len(nc) {
+			subs = parksInPlace
+		}
+		ops = append(ops, Op{Op: "run"}, Op{Op: "wait"}, Op{Op: "park", Sub: prng.Pick(r, subs)},
+			Op{Op: "reload", Cb: "some", Cfg: nc}, Op{Op: "waitpark"}, Op{Op: how}, Op{Op: "waitpark"}, Op{Op: "release"}, Op{Op: "wait"})
+	default:
+		ops = append(ops, Op{Op: "run"}, Op{Op: "wait"}, Op{Op: how},
+			Op{Op: "exit", C: free[r.Intn(len(free))], Err: prng.Pick(r, failShapes)}, Op{Op: "wait"})
+	}
+	if r.Chance(1, 4) { // a Reload() on the finished runner
+		ops = append(ops, Op{Op: "reload", Cb: "some", Cfg: seqEntries(r, cur)}, Op{Op: "wait"})
+	}
+	ops = append(ops, Op{Op: "end"})
+	sc.Ops = ops
+	return sc
+}
+
 // C18: many restarts and in-place reloads, callback failures in between, then a clean stop; the
 // goroutine census must follow the model at every quiescent point and be zero at the end.
 func genChurn(r *prng.R, i int) Scenario {
